@@ -363,11 +363,16 @@ class RxEnc:
 
     # --- entry points ------------------------------------------------------------------
     def parse(self, rx):
+        flags = 0
+        if isinstance(rx, tuple):
+            rx, flags = rx
         if isinstance(rx, re.Pattern):
-            rx = rx.pattern
+            rx, flags = rx.pattern, rx.flags
         if isinstance(rx, bytes) != self.s.is_bytes:
             raise NotEncodable('regex type does not match symbolic string type')
-        p = sp.parse(rx)
+        if flags & (re.M | re.X | re.L):
+            raise NotEncodable('MULTILINE/VERBOSE/LOCALE regex flags')
+        p = sp.parse(rx, flags & (re.I | re.S | re.A | re.U))
         self.keep.append(p)
         return p
 
@@ -429,6 +434,14 @@ class Query:
 def matcher_regexes(wc):
     """(include patterns, exclude patterns) actually executed by a compiled wcmatch matcher."""
     m = getattr(wc, '_matcher', wc)
-    inc = [p.pattern for p in m._include]
-    exc = [p.pattern for p in (m._exclude or ())]
+    inc = [rx_of(p) for p in m._include]
+    exc = [rx_of(p) for p in (m._exclude or ())]
     return inc, exc
+
+
+def rx_of(p):
+    """Regex text of a compiled pattern; compile-time flags that change membership are kept alongside the text."""
+    default = re.compile(p.pattern).flags
+    if p.flags == default:
+        return p.pattern
+    return (p.pattern, p.flags)
